@@ -566,6 +566,88 @@ def run(ck, ctx):
                                    "D": lambda l: _table_at(I, K, "OzDepth", l["idxs"], 0)})
     ck.guard(r069, "R06.9")
 
+    # ---------------------------------------------------------------- R06.10 ring limits of the angular integration
+    def r0610():
+        from ..facets.poly import PolyFacet
+        from ..interp_expr import is_basic_index
+        qual = "CphotAng.photon_sum"
+        cs = [c for c in I.call_log if c[0].qualname == qual]
+        if not cs:
+            raise AnalysisError(f"{qual} is not reached from the kernel")
+        fi, site, loc, ret, pc = cs[0]
+        ret = I.res(ret, K.st)
+        D, thc = (I.res(loc[k], K.st) for k in ("DistStep", "thetaC"))
+
+        def has_arange(n):
+            """n is an index array: arange(...) itself, sliced or broadcast, with no arithmetic on it"""
+            for _ in range(8):
+                if n.op == "Subscript" and is_basic_index(n.args[1]) is True:
+                    n = n.args[0]
+                elif is_ext_call(n, "numpy.broadcast_to", "numpy.asarray", "numpy.tile") and len(n.args) >= 2:
+                    n = n.args[1]
+                else:
+                    break
+            return is_ext_call(n, "numpy.arange")
+
+        def unsliced(n):
+            while n.op == "Subscript" and is_basic_index(n.args[1]) is True:
+                n = n.args[0]
+            return n
+        rings = []
+        for n in walk([ret]):
+            if n.op == "Compare" and n.fn is not None and n.fn.qualname == qual and n.attr in ("Lt", "Gt", "LtE", "GtE"):
+                a, b = n.args
+                if has_arange(a) != has_arange(b):
+                    rings.append(n)
+        ck.floor("R06.10", len(rings), 1, "comparisons of the ring index with the ring limit in photon_sum")
+        for n in rings:
+            a, b = n.args
+            j_left = has_arange(a)
+            L = unsliced(b if j_left else a)
+            strict_inside = (n.attr == "Lt" and j_left) or (n.attr == "Gt" and not j_left)      # j < L
+            outside = (n.attr == "GtE" and j_left) or (n.attr == "LtE" and not j_left)          # j >= L
+            ck.ob("R06.10", "a ring j contributes exactly while j < limit (the comparison is j < L or its complement)",
+                  strict_inside or outside, n, qual, g.show(n, 2)[:160])
+            P = PolyFacet(I, opaque_ids={D.id, thc.id}, gather_transparent=True)
+            keys = {g.vn(D), g.vn(thc)}
+            P.opaque = (lambda n_, _k=keys, _o=P.opaque: _o(n_) or g.vn(n_) in _k)
+            ref = "floor(D * tan(c)) + 1"
+            try:
+                ok = P.equal(_bare(P.of(L)), P.ref(ref, {"D": P.of(D), "c": P.of(thc)}))
+                detail = P.show(P.of(L))[:200]
+            except Exception as ex:       # noqa: BLE001
+                ok, detail = None, f"{type(ex).__name__}: {ex}"
+            ck.ob("R06.10", f"ring limit == {ref}  (D the distance to the detector in km, c the Cherenkov angle: "
+                  "rings of 1 km up to the Cherenkov radius at the detector, none for a radius below 1 km)", ok, L, qual,
+                  detail, construct=f"{qual}: ring limit of the angular integration")
+            # the rings beyond the limit are removed from the sum: a store of zero under the complement of j < L
+            zeroed = []
+            for sc in walk([ret]):
+                if sc.op == "Scatter" and _is_zero(sc.args[2]) and any(x is n for x in walk([sc.args[1]])):
+                    m = sc.args[1]
+                    neg = False
+                    while True:
+                        if m.op == "UnaryOp" and m.attr in ("Invert", "Not"):
+                            neg = not neg
+                            m = m.args[0]
+                        elif m.op == "Subscript" and is_basic_index(m.args[1]) is True:
+                            m = m.args[0]
+                        else:
+                            break
+                    if m is n:
+                        zeroed.append((sc, neg))
+            wheres = [w for w in walk([ret]) if is_ext_call(w, "numpy.where") and any(x is n for x in walk([w.args[1]]))]
+            mults = [m_ for m_ in walk([ret]) if m_.op == "BinOp" and m_.attr == "Mult" and
+                     any(unsliced(x) is n for x in m_.args)]
+            if zeroed:
+                ok_z = all(neg == strict_inside for _sc, neg in zeroed)
+                ck.ob("R06.10", "the contributions zeroed are those of the rings outside the limit", ok_z, zeroed[0][0],
+                      qual, f"{len(zeroed)} zeroing store(s)")
+            elif not wheres and not mults:
+                ck.ob("R06.10", "the ring comparison removes contributions from the sum", False, n, qual,
+                      "the comparison does not select, zero or weight any term of the sum")
+    ck.guard(r0610, "R06.10")
+
     # ---------------------------------------------------------------- R06.6 early exits
     def r066():
         def zero(x):
@@ -663,3 +745,8 @@ def _table_at(I, K, table, idx, off):
     if off:
         i = I.mk("BinOp", (i, I.const(abs(off))), "Sub" if off < 0 else "Add")
     return I.mk("Subscript", (t, i))
+
+
+def _is_zero(n):
+    n = _strip_cast(n)
+    return n.op == "Const" and isinstance(n.attr, (int, float)) and not isinstance(n.attr, bool) and n.attr == 0
